@@ -609,11 +609,31 @@ func runAgent(sc agentScript) (obs agentObs) {
 					up2.setHealthy()
 				}
 				// wait until everything has been acknowledged (bounded)
-				deadline := time.Now().Add(8 * time.Second)
+				// stuck = nothing delivered for a long time although the upstream is healthy: at least 8 s, and then for as long as
+				// the upstream still receives chunks (a loaded machine is slow, not stuck), at most 40 s
+				deadline, hard := time.Now().Add(8*time.Second), time.Now().Add(40*time.Second)
+				received := func() int {
+					n := 0
+					for _, u := range []*upstream{up, up2} {
+						if u != nil {
+							u.mu.Lock()
+							n += len(u.chunks)
+							u.mu.Unlock()
+						}
+					}
+					return n
+				}
+				lastN, lastT := received(), time.Now()
 				obs.stuck = true
-				for time.Now().Before(deadline) {
+				for time.Now().Before(hard) {
 					if agentAllDelivered(&obs, up) && (up2 == nil || agentAllDelivered(&obs, up2)) {
 						obs.stuck = false
+						break
+					}
+					if n := received(); n != lastN {
+						lastN, lastT = n, time.Now()
+					}
+					if time.Now().After(deadline) && time.Since(lastT) > 4*time.Second {
 						break
 					}
 					time.Sleep(10 * time.Millisecond)
